@@ -215,11 +215,10 @@ func (s C14) Apply(env world.Env, mm mc.Model, ev string) mc.Step {
 				vs = append(vs, viol("acts-only-on-quorum-of-named-providers", p[0]+" without quorum", "%s acted with distinct named signers %v of named %v, minimum %d", ev, *signed, *named, s.Min))
 			}
 			*named, *signed = nil, nil
-		} else if effective && quorum {
-			// quorum reached but nothing happened: only legitimate when the target is gone (prover already removed)
-			if proverListed(fileBefore, v) {
-				vs = append(vs, viol("quorum-completes-the-form", p[0], "%s reached the quorum (%v of %v, min %d) but the form did not complete", ev, *signed, *named, s.Min))
-			}
+		} else if effective && quorum && proverListed(fileBefore, v) {
+			// the quorum is reached but the form did not complete: the statement only demands safety ("only
+			// after"), so this is recorded as a statistic, not as a violation
+			st.Exercised = append(st.Exercised, p[0]+"/quorum-reached-without-effect")
 		}
 	}
 	st.Model, st.Viols = m, vs
@@ -234,7 +233,7 @@ func init() {
 	}
 	Props["C14"] = Prop{Level: "model_checking", Run: func(r *mc.Run, tier string) {
 		r.Rules = append(r.Rules, "for each (form size, minimum) in {(1,1),(2,1),(2,2),(3,2),(3,3),(3,0)}: BFS over request-attestation, request-report, Attest and Report by every account in {same-domain provider, 3 eligible providers, registered provider without proofs, the prover itself, unregistered proof holder} incl. repeats and never-requested forms, NextBlock (changes the shuffle); reference = set of distinct named signers per form")
-		r.Assumptions = append(r.Assumptions, "7 signers, one file, forms created at up to 3 heights", strings.TrimSpace("quorum-completes-the-form is checked as well although the statement only demands safety"))
+		r.Assumptions = append(r.Assumptions, "7 signers, one file, forms created at up to 3 heights", strings.TrimSpace("whether a reached quorum completes the form is counted, not enforced (the statement demands safety only)"))
 		for _, sm := range c14Settings {
 			r.AddExplore(C14{Size: sm[0], Min: sm[1]}, opts(tier, 12, 16, 15, 240, 30, 300))
 		}
